@@ -134,14 +134,15 @@ def sigil_texts(run):
     else:
         chosen = nums
     wr = gen_charclass.sweep(r"\w")
-    ranges = wr if not run.quick else rng.sample(wr, 120)
+    ranges = wr if not run.quick else rng.sample(wr, 80)
     for lo, hi in ranges:
         chosen += [lo, hi] if lo != hi else [lo]
     out = []
     for cp in dict.fromkeys(chosen):
         c = chr(cp)
-        out += ["$" + c, "$" + c + c, "$0" + c, "$a" + c, "$" + c + "a", "x." + c, "x." + c + "()", c, c + c + "(1)",
-                "f(" + c + " => $" + c + ")", "#" + c, "@" + c, "$" + c + "(", "[$" + c + ", $" + c + "1]", "$." + c, "a" + c + "b"]
+        out += ["$" + c, "$" + c + c, "$0" + c, "$a" + c, "x." + c, c + c + "(1)", "f(" + c + " => $" + c + ")", "#" + c, "a" + c + "b"]
+        if not run.quick or cp % 3 == 0:
+            out += ["$" + c + "a", "x." + c + "()", c, "@" + c, "$" + c + "(", "[$" + c + ", $" + c + "1]", "$." + c]
     for n in [4299, 4300, 4301, 5000] + ([100000] if True else []):
         out += ["$" + "7" * n, "$" + "0" * n, "$" + "٣" * n, "$" + "1" * n + "a", "$x" + "1" * n, "$" + "1" * n + " + 1",
                 "f($" + "9" * n + ")"]
